@@ -596,6 +596,7 @@ def run(tier, replay=None):
         "a pool whose members share read names is outside the comparison with a merged BAM (mates are paired by name within a sample)",
     ])
     chk.prove()
+    chk.require("dataset:mcmc-seed=0", "a legal seed that must seed every sample's chains like any other")
     chk.require("dataset:uncallable-record(NOA)", "the missing calls of such a record depend on the sample's own ploidy only")
     drv = C.Driver(EXE)
     r = C.rng(PROP)
@@ -619,7 +620,10 @@ def run(tier, replay=None):
             ploidies = (2, 4) if d == 0 else (3, 6, 2, 5) if d == 1 else r.choice([(2, 5, 8), (4, 7, 2), (3, 6, 2), (5, 2, 6)])
             ds = synth.make_dataset(r, os.path.join(work, f"ds{d}"), n_samples=n_samples, n_loci=4 if d == 0 else 5,
                                     ploidies=ploidies, max_snvs=4, depth=(5, 16), contig_len=700, features=feats)
-            seed = ["--mcmc-seed", str(r.randint(1, 10 ** 6))]
+            # the second dataset runs with --mcmc-seed 0: a legal seed (0 .. 2^32-1) that a truthiness test would read as
+            # "no seed given", leaving every run unseeded so that a sample's calls depend on what was drawn before it
+            seed = ["--mcmc-seed", "0" if d == 1 else str(r.randint(1, 10 ** 6))]
+            chk.count("dataset:mcmc-seed=" + ("0" if d == 1 else "random"))
             MCMC = MCMC0 if d == 0 else ["--mcmc-steps", "200", "--mcmc-burn", "100"]      # (higher ploidies: shorter chains)
             # optional FORMAT / INFO arrays: none (call-exact then takes its streaming path), all, a random subset
             optional = ["AFP", "AOP", "ACP", "GP", "GL"]
